@@ -79,3 +79,35 @@ Example f1_wrong_count :
   check_integrity faithful opts_trees t = Ok 1 /\ num_trees_spec t 4 = 2 /\
   check_repaired t = Err E_TABLES_BAD_INDEXES.
 Proof. repeat split; vm_compute; reflexivity. Qed.
+
+(* ---- after the fix commits: [check] IS the repaired gate ---- *)
+Lemma check_is_repaired : forall t, check t = check_repaired t.
+Proof. reflexivity. Qed.
+
+Lemma check_sound_top : forall t n, WF t -> check t = Ok n -> ValidTS t.
+Proof. exact check_repaired_sound_lemma. Qed.
+
+Lemma check_iff_top : forall t, WF t -> 2 * num_edges t + 1 < TSK_MAX_ID ->
+  ((exists n, check t = Ok n) <-> ValidTS t).
+Proof. exact check_repaired_iff_top. Qed.
+
+Lemma check_total_top : forall t, WF t ->
+  (exists n, check t = Ok n) \/ (exists c, check t = Err c).
+Proof. exact check_repaired_total_top. Qed.
+
+Lemma check_accepted_count_top : forall t n Lz, WF t -> 2 * num_edges t + 1 < TSK_MAX_ID ->
+  seqlen t = Fin Lz -> check t = Ok n -> n = num_trees_spec t Lz.
+Proof. exact check_repaired_count_top. Qed.
+
+Lemma check_no_oob_now : forall t, WF t -> check t <> OOB.
+Proof. intros t W. apply check_no_oob_lemma; assumption. Qed.
+
+Lemma check_terminates_now : forall t, check t <> Fuel.
+Proof.
+  intro t. unfold check. destruct (seqlen t) eqn:E; try (unfold check_integrity; rewrite E; discriminate).
+  apply (check_terminates_lemma code_variant t z E).
+Qed.
+
+Lemma check_complete_now : forall t, WF t -> ValidTS t -> 2 * num_edges t + 1 < TSK_MAX_ID ->
+  exists n, check t = Ok n.
+Proof. intros t W V B. destruct (check_complete_lemma code_variant t W V B) as [n [E _]]. exists n; exact E. Qed.
